@@ -860,6 +860,11 @@ func (in *Interp) writeTo(fr *frame, w Value, s Str) {
 	}
 	switch x := it.V.(type) {
 	case *Value:
+		if x != nil && it.T.String() == "*bytes.Buffer" {
+			o := in.sideObj(x, "buffer")
+			o.str = concatStr(o.str, s)
+			return
+		}
 		if o := in.side[x]; o != nil && o.Kind == "buffer" {
 			o.str = concatStr(o.str, s)
 			return
